@@ -316,7 +316,8 @@ def ensure_model():
     d = model_dir()
     os.makedirs(d, exist_ok=True)
     rt = open(os.path.join(common.ROOT, "cxx", "qtmodel_rt.h")).read()
-    files = {"qtmodel_rt.h": rt, "qtmodel.h": ModelGen().generate(), "QtDebug": QTDEBUG}
+    from . import exprdoc
+    files = {"qtmodel_rt.h": rt, "qtmodel.h": ModelGen().generate(), "QtDebug": QTDEBUG, "vfstate.h": exprdoc.vfstate_header()}
     changed = False
     for n, content in files.items():
         p = os.path.join(d, n)
@@ -336,7 +337,10 @@ class UicError(Exception):
 
 def mini_uic(ui_text, header_name_guard="UI_H"):
     """.ui text -> ui_<name>.h content.  Raises UicError for duplicate members / unknown structure."""
-    root = uiparse.parse(ui_text)
+    try:
+        root = uiparse.parse(ui_text)
+    except uiparse.UiSyntaxError as e:
+        raise UicError("ill-formed .ui: %s" % e)
     cls = root.find("class").text
     w = root.find("widget")
     root_class = w.attrs["class"]
